@@ -26,8 +26,8 @@ Open Scope string_scope.
 
 Inductive kind := Audio | Video.
 Inductive dir := Sendrecv | Sendonly | Recvonly | Inactive.
-Inductive sigst := Stable | HaveLocalOffer | HaveRemoteOffer | SigClosed.
-Inductive sdpty := TOffer | TAnswer.
+Inductive sigst := Stable | HaveLocalOffer | HaveRemoteOffer | HaveLocalPranswer | HaveRemotePranswer | SigClosed.
+Inductive sdpty := TOffer | TAnswer | TPranswer.
 (* m= media name: audio, video, application, anything else *)
 Inductive mkind := MAudio | MVideo | MApp | MOther.
 
@@ -41,6 +41,7 @@ Definition dir_eqb (a b : dir) : bool :=
 Definition sig_eqb (a b : sigst) : bool :=
   match a, b with
   | Stable, Stable | HaveLocalOffer, HaveLocalOffer | HaveRemoteOffer, HaveRemoteOffer
+  | HaveLocalPranswer, HaveLocalPranswer | HaveRemotePranswer, HaveRemotePranswer
   | SigClosed, SigClosed => true
   | _, _ => false
   end.
@@ -567,6 +568,29 @@ Fixpoint matched_loop (remote : list sec) (locals : list (nat * tcv)) (acc : lis
            end
   end.
 
+(* the transceivers the same loop has already called setNegotiated on when it
+   returns -- normally or with an error (the marks made before
+   errPeerConnRemoteDescriptionWithoutMidValue / errPeerConnTranscieverMidNil stay) *)
+Fixpoint matched_prefix (remote : list sec) (locals : list (nat * tcv)) : list nat :=
+  match remote with
+  | [] => []
+  | m :: rest =>
+      let mid := mid_value m in
+      if String.eqb mid "" then []
+      else match sc_media m with
+           | MApp => matched_prefix rest locals
+           | _ =>
+               match kind_of_media (sc_media m), sc_dir m with
+               | Some _, Some _ =>
+                   match find_by_mid mid locals with
+                   | None => []
+                   | Some ((i, _), locals') => i :: matched_prefix rest locals'
+                   end
+               | _, _ => matched_prefix rest locals
+               end
+           end
+  end.
+
 Definition matched_sections (p : pc) (remote : list sec) (l : list tcv) (include_unmatched : bool)
   : result (list msec * list nat) :=
   match matched_loop remote (indexed l) [] false with
@@ -597,10 +621,16 @@ Definition pc_after_offer (p : pc) (g : Z) (l : list tcv) (last : option desc) :
      p_cur_remote := p_cur_remote p; p_pend_remote := p_pend_remote p;
      p_last_offer := last; p_last_answer := p_last_answer p |}.
 
+(* setNegotiated on the senders of the transceivers at these positions *)
+Definition mark_at (idx : list nat) (l : list tcv) : list tcv :=
+  map (fun x => if existsb (Nat.eqb (fst x)) idx then mark_negotiated (snd x) else snd x) (indexed l).
+
 (* CreateOffer. The retry loop recomputes the same offer from the same state, so
    a "changed" verdict repeats 128 times and ends in errExcessiveRetries.
    setNegotiated marks are applied to every transceiver's sender on the
-   success path (every transceiver is in exactly one section then). *)
+   success path (every transceiver is in exactly one section then); when
+   generateMatchedSDP fails, the transceivers it matched before the failing
+   remote section keep their mark, and so do the mids already given out. *)
 Definition create_offer (p : pc) : pc * outcome * effect :=
   if p_closed p then (p, err_ "closed", fx_none)
   else
@@ -634,7 +664,12 @@ Definition create_offer (p : pc) : pc * outcome * effect :=
         else
           let d := {| d_type := TOffer; d_secs := secs |} in
           (pc_after_offer p g l' (Some d), {| o_status := "ok"; o_desc := Some d |}, fx_none)
-    | Err e => (pc_after_offer p g l (p_last_offer p), err_ e, fx_none)
+    | Err e =>
+        let marked := match remote_for_matching p with
+                      | Some r => matched_prefix (d_secs r) (indexed l)
+                      | None => []
+                      end in
+        (pc_after_offer p g (mark_at marked l) (p_last_offer p), err_ e, fx_none)
     | Panic => (p, err_ "panic", fx_none)
     end.
 
@@ -645,7 +680,8 @@ Definition create_answer (p : pc) : pc * outcome * effect :=
   | None => (p, err_ "no-remote-description", fx_none)
   | Some r =>
       if p_closed p then (p, err_ "closed", fx_none)
-      else if negb (sig_eqb (p_sig p) HaveRemoteOffer) then (p, err_ "signaling-state", fx_none)
+      else if negb (sig_eqb (p_sig p) HaveRemoteOffer) && negb (sig_eqb (p_sig p) HaveLocalPranswer)
+           then (p, err_ "signaling-state", fx_none)
       else match matched_sections p (d_secs r) (p_tcvs p) false with
            | Ok (ms, unused) =>
                (* setNegotiated on the matched transceivers' senders *)
@@ -658,7 +694,10 @@ Definition create_answer (p : pc) : pc * outcome * effect :=
                    p_pend_remote := p_pend_remote p; p_last_offer := p_last_offer p;
                    p_last_answer := Some d |},
                 {| o_status := "ok"; o_desc := Some d |}, fx_none)
-           | Err e => (p, err_ e, fx_none)
+           | Err e =>
+               (* the marks made before the failing remote section stay *)
+               (pc_with_tcvs p (mark_at (matched_prefix (d_secs r) (indexed (p_tcvs p))) (p_tcvs p)),
+                err_ e, fx_none)
            | Panic => (p, err_ "panic", fx_none)
            end
   end.
@@ -734,7 +773,7 @@ Definition set_local (p : pc) (ty : sdpty) : pc * outcome * effect :=
            match p_last_answer p with
            | None => (p, err_ "no-description", fx_none)
            | Some d =>
-               if sig_eqb (p_sig p) HaveRemoteOffer then
+               if sig_eqb (p_sig p) HaveRemoteOffer || sig_eqb (p_sig p) HaveLocalPranswer then
                  (* setDescription: into stable *)
                  let remote := p_pend_remote p in
                  (* weAnswer && remoteDesc != nil *)
@@ -755,7 +794,34 @@ Definition set_local (p : pc) (ty : sdpty) : pc * outcome * effect :=
                   {| fx_triggers := 1; fx_to_stable := true |})
                else (p, err_ "signaling-state", fx_none)
            end
+       | TPranswer =>
+           (* have-remote-offer -> SetLocal(pranswer) -> have-local-pranswer: the
+              description becomes the pending local one; weAnswer is false, so
+              neither current directions nor senders are touched *)
+           match p_last_answer p with
+           | None => (p, err_ "no-description", fx_none)
+           | Some d =>
+               if sig_eqb (p_sig p) HaveRemoteOffer then
+                 ({| p_closed := p_closed p; p_sig := HaveLocalPranswer; p_tcvs := p_tcvs p;
+                     p_greater_mid := p_greater_mid p; p_dcs := p_dcs p; p_always_dc := p_always_dc p;
+                     p_cur_local := p_cur_local p; p_pend_local := Some d; p_cur_remote := p_cur_remote p;
+                     p_pend_remote := p_pend_remote p; p_last_offer := p_last_offer p;
+                     p_last_answer := p_last_answer p |}, ok_, fx_none)
+               else (p, err_ "signaling-state", fx_none)
+           end
        end.
+
+(* the direction switch of that loop for a transceiver that exists already:
+   offered direction, the transceiver's direction -> its new direction *)
+Definition srd_direction (offered cur : dir) : dir :=
+  match offered, cur with
+  | Recvonly, Sendrecv => Sendonly
+  | Recvonly, Recvonly => Inactive
+  | Sendrecv, Sendonly => Sendrecv
+  | Sendrecv, Inactive => Recvonly
+  | Sendonly, Inactive => Recvonly
+  | _, c => c
+  end.
 
 (* SetRemoteDescription(offer): the loop that matches or creates transceivers.
    remaining = the transceivers that existed at the start and are not yet used;
@@ -791,14 +857,7 @@ Fixpoint remote_offer_loop (remote : list sec) (remaining : list (nat * tcv)) (l
                        let f := fun t0 : tcv =>
                          let t1 := if stop then tcv_stop t0 else t0 in
                          let t2 := tcv_with_curremote t1 (Some d) in
-                         let t3 := match d, t_dir t2 with
-                                   | Recvonly, Sendrecv => tcv_with_dir t2 Sendonly
-                                   | Recvonly, Recvonly => tcv_with_dir t2 Inactive
-                                   | Sendrecv, Sendonly => tcv_with_dir t2 Sendrecv
-                                   | Sendrecv, Inactive => tcv_with_dir t2 Recvonly
-                                   | Sendonly, Inactive => tcv_with_dir t2 Recvonly
-                                   | _, _ => t2
-                                   end in
+                         let t3 := tcv_with_dir t2 (srd_direction d (t_dir t2)) in
                          if String.eqb (t_mid t3) "" then tcv_with_mid t3 mid else t3 in
                        remote_offer_loop rest rem' (update_nth i f l) added
                    end
@@ -806,6 +865,23 @@ Fixpoint remote_offer_loop (remote : list sec) (remaining : list (nat * tcv)) (l
                end
            end
   end.
+
+(* SetRemoteDescription with a description that is not an answer (offer, and
+   -- weOffer is "type == answer" -- also pranswer): signaling state [from] ->
+   [to], the description becomes the pending remote one, then the loop *)
+Definition set_remote_nonanswer (p : pc) (d : desc) (from to : sigst) (l0 : list tcv) : pc * outcome * effect :=
+  if sig_eqb (p_sig p) from then
+    let '(l1, added, ok) := remote_offer_loop (d_secs d) (indexed l0) l0 0 in
+    ({| p_closed := p_closed p; p_sig := to; p_tcvs := l1;
+        p_greater_mid := p_greater_mid p; p_dcs := p_dcs p; p_always_dc := p_always_dc p;
+        p_cur_local := p_cur_local p; p_pend_local := p_pend_local p; p_cur_remote := p_cur_remote p;
+        p_pend_remote := Some d; p_last_offer := p_last_offer p; p_last_answer := p_last_answer p |},
+     (* extractICEDetails: remote m-sections carry ICE credentials (assumed of
+        the remote peer), so it fails exactly when there is no m-section *)
+     if negb ok then err_ "remote-without-mid"
+     else match d_secs d with [] => err_ "missing-ice-ufrag" | _ => ok_ end,
+     {| fx_triggers := added; fx_to_stable := false |})
+  else (p, err_ "signaling-state", fx_none).
 
 (* what the environment says after a remote description was applied: is RTX /
    FEC still enabled for audio, for video *)
@@ -823,21 +899,18 @@ Definition set_remote (p : pc) (ty : sdpty) (secs : list sec) (e : engine) : pc 
     let d := {| d_type := ty; d_secs := secs |} in
     match ty with
     | TOffer =>
-        if sig_eqb (p_sig p) Stable then
-          let l0 := map (configure_tcv e) (p_tcvs p) in
-          let '(l1, added, ok) := remote_offer_loop secs (indexed l0) l0 0 in
-          ({| p_closed := p_closed p; p_sig := HaveRemoteOffer; p_tcvs := l1;
-              p_greater_mid := p_greater_mid p; p_dcs := p_dcs p; p_always_dc := p_always_dc p;
-              p_cur_local := p_cur_local p; p_pend_local := p_pend_local p; p_cur_remote := p_cur_remote p;
-              p_pend_remote := Some d; p_last_offer := p_last_offer p; p_last_answer := p_last_answer p |},
-           (* extractICEDetails: remote m-sections carry ICE credentials (assumed of
-              the remote peer), so it fails exactly when there is no m-section *)
-           if negb ok then err_ "remote-without-mid"
-           else match secs with [] => err_ "missing-ice-ufrag" | _ => ok_ end,
-           {| fx_triggers := added; fx_to_stable := false |})
+        (* stable -> SetRemote(offer) -> have-remote-offer *)
+        if sig_eqb (p_sig p) Stable
+        then set_remote_nonanswer p d Stable HaveRemoteOffer (map (configure_tcv e) (p_tcvs p))
+        else (p, err_ "signaling-state", fx_none)
+    | TPranswer =>
+        (* have-local-offer -> SetRemote(pranswer) -> have-remote-pranswer; the
+           transceiver loop runs as for an offer (weOffer = type is answer) *)
+        if sig_eqb (p_sig p) HaveLocalOffer
+        then set_remote_nonanswer p d HaveLocalOffer HaveRemotePranswer (map (configure_tcv e) (p_tcvs p))
         else (p, err_ "signaling-state", fx_none)
     | TAnswer =>
-        if sig_eqb (p_sig p) HaveLocalOffer then
+        if sig_eqb (p_sig p) HaveLocalOffer || sig_eqb (p_sig p) HaveRemotePranswer then
           let l0 := map (configure_tcv e) (p_tcvs p) in
           (* extractICEDetails fails on a description without m-sections, before
              weOffer: current directions from the remote answer, then startRTPSenders *)
